@@ -19,6 +19,7 @@ func C14(p *core.Prog, r *core.Report) {
 	FlagAfterParse(p, r)
 	ReplayHit(p, r)
 	DigestAfterRead(p, r)
+	RaiseReturned(p, r)
 	r.NotDecided = append(r.NotDecided, "byte equality of the two runs (needs execution)", "behaviour under cache-directory I/O faults", "the -o replay path's removal of the entry", "options whose effect is lossy inside the payload expression")
 	r.Assumptions = append(r.Assumptions, "encoding/json marshals distinct values of the types accepted by KEY-6 to distinct payload bytes (strings that are valid UTF-8)", "the cryptographic hashes accepted by HASH-STRONG do not collide in practice", "hash.Hash implementations never fail in Write", "go/cfg models control flow of the analysed functions (no goto/labels in them)")
 }
